@@ -34,7 +34,6 @@ class ExecutionPlanner:
         """
 
         all_ops: List[Operation] = []
-        initial_operations: List[Operation] = []
         cached_tasks: List[TaskType] = []
         task_to_run = self._ctx.task_index.get_task(task_id)
         num_tasks_to_run = 0
@@ -163,18 +162,48 @@ class ExecutionPlanner:
                         new_op.add_exe_dep(dep_op)
                         dep_op.add_dep_of(new_op)
                 lt.output_ops.append(new_op)
-
-                # If this operation has no dependencies, it is part of
-                # `initial_operations`.
-                if len(new_op.exe_deps) == 0:
-                    initial_operations.append(new_op)
-
                 all_ops.append(new_op)
 
                 # N.B. Right now there's a 1-to-1 correspondence between
                 # tasks and operations. But with remote execution, this will
                 # change.
                 num_tasks_to_run += 1
+
+        # Second pass: a dependency that was pruned (it has reusable cached
+        # results) contributes no operation, but tasks *behind* it may still
+        # execute in this plan because they are also reachable through another
+        # path. The dependents of the pruned task transitively depend on those
+        # tasks too, so they must wait for them (and be skipped if they fail).
+        behind_cache: Dict[TaskIdentifier, List[Operation]] = {}
+
+        def ops_behind(pruned_id: TaskIdentifier) -> List[Operation]:
+            # The output operations of the closest lowered tasks reachable from
+            # `pruned_id` through tasks that have no operation in this plan.
+            if pruned_id in behind_cache:
+                return behind_cache[pruned_id]
+            behind_cache[pruned_id] = []
+            found: List[Operation] = []
+            for dep_id in self._ctx.task_index.get_task(pruned_id).deps:
+                lowered = visited.get(dep_id)
+                if lowered is not None and len(lowered.output_ops) > 0:
+                    found.extend(lowered.output_ops)
+                else:
+                    found.extend(ops_behind(dep_id))
+            behind_cache[pruned_id] = found
+            return found
+
+        for lt in visited.values():
+            for op in lt.output_ops:
+                for dep in lt.deps:
+                    if len(visited[dep.task.identifier].output_ops) > 0:
+                        continue
+                    for dep_op in ops_behind(dep.task.identifier):
+                        if dep_op not in op.exe_deps:
+                            op.add_exe_dep(dep_op)
+                            dep_op.add_dep_of(op)
+
+        # Operations without dependencies can start right away.
+        initial_operations = [op for op in all_ops if len(op.exe_deps) == 0]
 
         return ExecutionPlan(
             task_to_run=task_to_run,
